@@ -249,6 +249,22 @@ def relay_order():
     return out
 
 
+def relay_order_all_events():
+    """relay_order for EVERY kind of in-process event: the harness plugin also implements on_write_stdout,
+    on_start/end_trace_call and on_start/end_cmdloop (config extra_hooks), the script prints; the hook of one kind is held
+    while the run ends: end-run must wait for it, whatever the kind (each event class has its own dispatch branch)"""
+    out = []
+    extra = ['on_write_stdout', 'on_start_trace_call', 'on_end_trace_call', 'on_start_cmdloop', 'on_end_cmdloop']
+    for hook in extra:
+        for ending in ('return', 'kill'):
+            steps = START + [['hold', hook], ['call', 'A', 'run'], settle(0.6)]
+            steps += ([['child', 'return']] if ending == 'return' else [['call', 'B', ending]])
+            steps += [['wait_child_exit', 8.0], ['sleep', 1.3], ['sample'], ['release_all'], ['unhold', hook], settle(0.6), ['sample']]
+            out.append(S(steps, dict(family='relay-order', outcome=ending, held=hook, expect_complete=False),
+                         config={'answer': 'next', 'extra_hooks': extra, 'script_prints': True}))
+    return out
+
+
 def cancelled_requests():
     """the task awaiting a run request is cancelled while the run is starting (its on_start_run hooks are held):
     the run that has begun goes on; no second child may appear and 'finished' only after the child has gone"""
@@ -341,6 +357,13 @@ def endings():
         steps = START + [['call', 'W', 'run_session'], ['wait_prompt_open'], settle(0.4), ['call', 'A', sig], ['await', 'W', 25.0], settle(),
                          ['call', 'A', 'result'], settle(), ['sample']]
         out.append(S(steps, dict(family='ending', outcome=sig, point='prompt-open', expect_result=exp), config={'answer': None}))
+    # the main process LAGS BEHIND: the relay is held in a slow hook for well over a second while the script ends; the child
+    # waits until its events have been taken, however long that takes, and the run's own outcome is still what is reported
+    for outcome, exp in (('raise', 'ValueError: verif'), ('exit', 'SystemExit'), ('return', 'none')):
+        steps = START + [['hold', 'on_end_prompt'], ['call', 'W', 'run_session'], ['wait_child_in_script'], settle(0.4), ['child', outcome], ['wait_ctl_ack'],
+                         ['sleep', 2.6], ['release_all'], ['unhold', 'on_end_prompt'], ['await', 'W', 25.0], settle(),
+                         ['call', 'A', 'result'], settle(), ['sample']]
+        out.append(S(steps, dict(family='ending', outcome=outcome, point='parent-lags', expect_result=exp)))
     # a signal that arrives after the script has returned, while the worker is still draining its event queue
     # (the relay is held in a hook of the main process, so the queue cannot empty)
     for sig in ('interrupt', 'terminate'):
